@@ -69,6 +69,10 @@ var c16Numbers = []struct {
 	{"-1", []string{"(-1)", "(0 - 1)", "(~0)", "((-1) | 0)", bn.BRound + "(-0.6)", bn.BMax + "(-1, -2)", "(-(1))", "((-2) >> 1)"}},
 	{"1000000", []string{"1000000", "(999999 + 1)", "(1000 * 1000)", "(1000000 | 0)", "(1000000 & 1048575)", bn.BRound + "(1000000.2)", bn.BAbs + "(-1000000)", "(10 ** 6)", "(500000 << 1)", "(3097152 % 2097152)", "(1000000 % 2147483648)", "(1000000 % 1000001)"}},
 	{"2^53", []string{"9007199254740992", "(2 ** 53)", "(9007199254740991 + 1)", "(1 << 53)", "(9007199254740992 | 0)", bn.BAbs + "(-9007199254740992)", bn.BMax + "(1, 9007199254740992)", "(9007199254740992 % 18014398509481984)"}},
+	// beyond 2^53 but held exactly by a double: bitwise results are ordinary numbers here too
+	{"big 2^60", []string{"1152921504606846976", "(2 ** 60)", "(1 << 60)", "(1152921504606846976 | 0)", "((1 << 30) * (1 << 30))", bn.BAbs + "(-1152921504606846976)", "((1 << 61) >> 1)", "(1152921504606846976 & 1152921504606846976)", "(1152921504606846976 ^ 0)", "(~(~1152921504606846976))", bn.BMax + "(1, 1 << 60)", "(2 ** 30 << 30)"}},
+	{"big -2^63", []string{"(-9223372036854775808)", "(0 - 2 ** 63)", "((-1) << 63)", "(1 << 63)", "((-9223372036854775808) | 0)", bn.BMin + "(0, 1 << 63)", "((-4611686018427387904) * 2)"}},
+	{"big 3*2^60", []string{"3458764513820540928", "(3 * 2 ** 60)", "(3 << 60)", "(3458764513820540928 | 0)", "((1 << 60) | (1 << 61))", "((1 << 60) + (1 << 61))"}},
 	{"12", []string{"12", "(3 * 4)", "(12 | 0)", "(8 | 4)", bn.BRound + "(11.5)", "১২", "(28 % 16)", "(12 % 1048576)"}},
 }
 
@@ -235,24 +239,27 @@ func TestC16(t *testing.T) {
 					ps = append(ps, c16Producer{name: fmt.Sprintf("expr#%d %s", i, e), expr: e})
 				}
 				lit := n.exprs[0]
-				if n.name != "2^53" { // counting up to 2^53 never ends: 2^53 + 1 is not a double
+				big := strings.HasPrefix(n.name, "big ")
+				if n.name != "2^53" && !big { // counting up to 2^53 never ends: 2^53 + 1 is not a double
 					ps = append(ps, c16Producer{name: "for-counter", setup: bn.KwVar + " held = nil; " + bn.KwFor + " (" + bn.KwVar + " i = " + lit + " - 2; i <= " + lit + "; i = i + 1) { held = i; }", expr: "held"})
 				}
-				ps = append(ps,
-					c16Producer{name: "for-counter-down", setup: bn.KwVar + " held = nil; " + bn.KwFor + " (" + bn.KwVar + " i = " + lit + " + 2; i >= " + lit + "; i = i - 1) { held = i; }", expr: "held"},
-					c16Producer{name: "while-counter", setup: bn.KwVar + " held = " + lit + " - 3; " + bn.KwWhile + " (held < " + lit + ") { held = held + 1; }", expr: "held"},
-					c16Producer{name: "update-statement", setup: bn.KwVar + " held = " + lit + " - 1; held = held + 1;", expr: "held"},
-					c16Producer{name: "update-statement-minus", setup: bn.KwVar + " held = " + lit + " + 2; held = held - 2;", expr: "held"},
-					c16Producer{name: "element-update", setup: bn.KwVar + " cell = [" + lit + " - 1]; cell[0] = cell[0] + 1;", expr: "cell[0]"},
-					c16Producer{name: "recursion-result", setup: bn.KwFun + " up(k) { " + bn.KwIf + " (k == 0) " + bn.KwReturn + " " + lit + " - 3; " + bn.KwReturn + " up(k - 1) + 1; }", expr: "up(3)"},
-				)
+				if !big {
+					ps = append(ps,
+						c16Producer{name: "for-counter-down", setup: bn.KwVar + " held = nil; " + bn.KwFor + " (" + bn.KwVar + " i = " + lit + " + 2; i >= " + lit + "; i = i - 1) { held = i; }", expr: "held"},
+						c16Producer{name: "while-counter", setup: bn.KwVar + " held = " + lit + " - 3; " + bn.KwWhile + " (held < " + lit + ") { held = held + 1; }", expr: "held"},
+						c16Producer{name: "update-statement", setup: bn.KwVar + " held = " + lit + " - 1; held = held + 1;", expr: "held"},
+						c16Producer{name: "update-statement-minus", setup: bn.KwVar + " held = " + lit + " + 2; held = held - 2;", expr: "held"},
+						c16Producer{name: "element-update", setup: bn.KwVar + " cell = [" + lit + " - 1]; cell[0] = cell[0] + 1;", expr: "cell[0]"},
+						c16Producer{name: "recursion-result", setup: bn.KwFun + " up(k) { " + bn.KwIf + " (k == 0) " + bn.KwReturn + " " + lit + " - 3; " + bn.KwReturn + " up(k - 1) + 1; }", expr: "up(3)"},
+					)
+				}
 				ps = append(ps, c16Producer{name: "element-after-builtins", setup: bn.KwVar + " seen = [" + lit + ", 0]; " + bn.BMax + "(seen); " + bn.BMin + "(seen); " + bn.BLen + "(seen); " + bn.BPush + "(seen, 1); " + bn.BRemove + "(seen, 0);", expr: "seen[0]"})
 				ps = append(ps, c16Producer{name: "parameter", expr: n.exprs[0], param: true},
 					c16Producer{name: "function-result", setup: bn.KwFun + " mkv() { " + bn.KwReturn + " " + n.exprs[len(n.exprs)/2] + "; }", expr: "mkv()"},
 					c16Producer{name: "variable-of-bitwise", setup: bn.KwVar + " held = " + n.exprs[2] + ";", expr: "held"})
 				c.c16Group(s, "numbers", n.name, ps, contexts, &k)
 			}
-			c.Ev.MarkExhaustive(fmt.Sprintf("%d contexts x 6 numbers x every producer (literal, arithmetic, bitwise, লেন, রাউন্ড, পরমমান, min/max, containers, parameter, function result) against the literal producer", len(contexts)))
+			c.Ev.MarkExhaustive(fmt.Sprintf("%d contexts x 9 numbers (three beyond 2^53 that a double holds exactly) x every producer (literal, arithmetic, bitwise, লেন, রাউন্ড, পরমমান, min/max, containers, parameter, function result) against the literal producer", len(contexts)))
 		})
 	})
 }
